@@ -10,8 +10,9 @@ import (
 
 type vfGen struct {
 	n    int
-	mode int    // 0: symbolic real, 1: symbolic IEEE double (all bit patterns), 2: small concrete ints
+	mode int    // 0: symbolic real, 1: symbolic IEEE double (all bit patterns), 2: small concrete ints, 3: number with a symbolic %g spelling
 	pfx  string // name prefix
+	tok  int    // mode 3: length of the spelling
 }
 
 func (g *vfGen) f() float64 {
@@ -22,6 +23,8 @@ func (g *vfGen) f() float64 {
 		return vfF64(name)
 	case 2:
 		return float64((g.n*7)%11) - 3
+	case 3:
+		return vfWktNum(name, g.tok)
 	}
 	return vfReal(name)
 }
